@@ -22,6 +22,7 @@ PROPS = {
     "C01": dict(pkg="c01", shards=(4, 16), timeout=(300, 3600)),
     "C07": dict(pkg="c07", shards=(6, 12), timeout=(600, 5400), fuzz=[("FuzzBoc", 300, 6)]),
     "C02": dict(pkg="c02", shards=(4, 16), timeout=(300, 3600)),
+    "C03": dict(pkg="c03", shards=(4, 16), timeout=(600, 3600), typereg=True),
     "C06": dict(pkg="c06", shards=(4, 16), timeout=(300, 3600)),
 }
 
@@ -58,6 +59,14 @@ def build(pid, race=False):
     os.makedirs(BUILD, exist_ok=True)
     tag = "" if repo_dir() == "/repo" else "-" + hashlib.sha1(repo_dir().encode()).hexdigest()[:6]
     out = os.path.join(BUILD, "%s%s%s.test" % (pid, "-race" if race else "", tag))
+    if cfg.get("typereg"):
+        # the list of library types is scanned from the tree under test before every build
+        r = subprocess.run(["go", "run"] + modfile_args() + ["./internal/typereg/scan", "-repo", repo_dir(), "-out", "internal/typereg/registry_gen.go"],
+                           cwd=HARNESS, env=goenv(), stdout=subprocess.PIPE, stderr=subprocess.STDOUT, text=True)
+        if r.returncode != 0:
+            print(r.stdout)
+            print("INFRA: type registry scan failed")
+            return None
     cmd = ["go", "test", "-c", "-tags", "verif", "-vet=off", "-o", out] + modfile_args()
     if race:
         cmd.append("-race")
